@@ -337,7 +337,18 @@ def gen_txn(rng, state, force=None):
            "outcome": rng.choice(["commit"] * 5 + ["cancel", "exception"]),
            "schema": rng.choice([None] * 6 + ["add", "add", "add", "remove"])}
     if force:
+        force = dict(force)
+        min_adds = force.pop("min_adds", 0)
         txn.update(force)
+        have = sum(1 for op in ops if op[0] == "add")
+        if have < min_adds:
+            # scripted histories that need documents in a transaction (e.g. values for a field added
+            # by it); drawn from a derived generator so that the main stream of choices is unchanged
+            import random as _random
+            r2 = _random.Random("min-adds:%d" % state["next"])
+            for _ in range(min_adds - have):
+                ops.append(("add", gen_doc(r2, state["next"])))
+                state["next"] += 1
     # The optional field goes through never -> present -> removed, once: a removed field's stored
     # values are only hidden by the schema (they come back if the name is added again, unless a
     # merge rewrote the segment meanwhile), which the dictionary model does not track.
@@ -455,7 +466,9 @@ def run_txn(ix, txn, writer_kwargs=None, on_writer=None, log=None):
         on_writer(w)
     try:
         if txn.get("schema") == "add" and "x" not in w.schema.names():
-            w.add_field("x", fields.KEYWORD(stored=True))
+            # the optional field has a column of its own (one more file per loose segment), so that a
+            # schema change also concerns per-field segment data, not only the pickled schema
+            w.add_field("x", fields.KEYWORD(stored=True, sortable=True))
         elif txn.get("schema") == "remove" and "x" in w.schema.names():
             w.remove_field("x")
         hasx = "x" in w.schema.names()
@@ -534,9 +547,14 @@ def dump_reader(r):
         if r.has_vector(docnum, "t"):
             vecs.append((keyof[docnum], sorted(r.vector_as("frequency", docnum, "t"))))
     out["vectors"] = sorted(vecs, key=repr)
-    if r.has_column("n") and r.doc_count_all():
-        cr = r.column_reader("n")
-        out["column_n"] = sorted(((keyof[d], cr[d]) for d in keyof), key=repr)
+    # every column the schema promises (the fixed sortable field and the optional one while the
+    # schema has it): presence and per-document values
+    for fname in sorted(r.schema.names()):
+        if r.schema[fname].column_type is None:
+            continue
+        if r.has_column(fname) and r.doc_count_all():
+            cr = r.column_reader(fname)
+            out["column_" + fname] = sorted(((keyof[d], cr[d]) for d in keyof), key=repr)
     return out
 
 
